@@ -338,6 +338,51 @@ def _keys(ctx) -> None:
            message=f"Vector.__setitem__: v[[]] = x on a non-empty vector certainly reaches the refusal at line "
                    f"{getattr(refused[0].node, 'lineno', 0) if refused else 0} ([] is classified as a boolean mask - all() of no element is True - and "
                    f"fails the mask length check) while v[()] = x and v[Vector([])] = x address nothing and succeed")
+    # a one-shot iterator (generator, map, zip) is a value like any other iterable for list assignment: it has no len() - no
+    # `len(value)` may be applied to the raw parameter when it is one (evaluated for that kind of value: a rebinding
+    # `value = list(value) if isinstance(value, Iterator) else value` resolves to the list)
+    valp = ("param", f.params[2])
+    raw_vals = (valp, ("call", ("attr", SELF, "_check_duplicate"), (valp,), ()))
+
+    def it_truth(c):
+        if c[0] == "call" and c[1] == ("name", "isinstance") and len(c[2]) == 2 and c[2][0] in raw_vals:
+            names = {x[1] for x in subterms(c[2][1]) if x[0] == "name"}
+            if names & {"Iterator", "Iterable", "Generator"}:
+                return True
+            return False if names and names <= {"str", "bytes", "bytearray", "Vector", "list", "tuple", "Mapping", "dict", "int", "float", "range",
+                                                "Sized", "Sequence", "Collection", "Table"} else None
+        if c[0] == "un" and c[1] == "Not":
+            r = it_truth(c[2])
+            return None if r is None else not r
+        if c[0] == "bool":
+            rs = [it_truth(x) for x in c[2]]
+            if c[1] == "and":
+                return False if False in rs else (None if None in rs else True)
+            return True if True in rs else (None if None in rs else False)
+        return None
+
+    def it_resolve(t):
+        while t[0] == "ifexp":
+            r = it_truth(t[1])
+            if r is None:
+                return None
+            t = t[2] if r else t[3]
+        return t
+    len_of_iterator = []
+    for e in it.events:
+        if any(it_truth(c) is (not pol) for c, pol in flatten_conds(e.conds)):
+            continue                                     # not reached for an iterator value
+        for t in [e.term, e.value] + [c for c, _ in e.conds]:
+            if t is None:
+                continue
+            for x in subterms(t):
+                if x[0] == "call" and x[1] == ("name", "len") and len(x[2]) == 1 and it_resolve(x[2][0]) in raw_vals:
+                    len_of_iterator.append(e)
+    ctx.ob("c.key-forms", f, "iterator-value", not len_of_iterator, "no len() of the raw value is reached when the value is a one-shot iterator",
+           (len_of_iterator[0].node if len_of_iterator else f.node),
+           message=f"Vector.__setitem__ takes len(value) (line {getattr(len_of_iterator[0].node, 'lineno', 0) if len_of_iterator else 0}) of a value that "
+                   f"may be a generator / map / zip: v[0:2] = (x for x in [7, 8]) raises a bare TypeError 'object of type generator has no len()' "
+                   f"although list assignment takes any iterable and t[:, 'a'] = generator works")
     ok = {"Vector", "slice", "int"} <= classes and bool({"list", "tuple"} & classes)
     ctx.ob("c.key-forms", f, "dispatch", ok, f"key classes dispatched on: {sorted(classes)}", f.node,
            message=f"the key dispatch tests {sorted(classes)}; expected mask, slice, int, int vector, int list/tuple")
@@ -688,9 +733,23 @@ def _table(ctx) -> None:
 
     KINDS = {"Vector": {"Vector", "Iterable", "Sized", "Collection", "Sequence"}, "list": {"list", "Iterable", "Sequence", "Sized", "Collection"},
              "tuple": {"tuple", "Iterable", "Sequence", "Sized", "Collection"}, "Iterator": {"Iterator", "Iterable"},
-             "deque": {"deque", "Iterable", "Sequence", "MutableSequence", "Sized", "Collection", "Reversible"}}
+             "deque": {"deque", "Iterable", "Sequence", "MutableSequence", "Sized", "Collection", "Reversible"},
+             "Mapping": {"Mapping", "dict", "Iterable", "Sized", "Collection", "Container"},
+             "IntFlag": {"int", "Iterable", "Hashable", "Flag", "IntFlag"}}       # (an int whose class is iterable: enum.Flag since 3.11)
+
+    # the list of target column positions (an object of __setitem__ handed to the writer): its length can be assumed per question
+    NT = [None]
+    ti_terms = {x.term[2][1] for x in it.events if x.kind == "inline" and x.term[0] == "call" and x.term[1][0] == "name"
+                and x.term[1][1].endswith("._write_columns") and len(x.term[2]) >= 2}
+    ti_terms |= {("param", "target_indices")}
 
     def ktruth(c, K, depth=0):
+        if NT[0] is not None and c[0] == "cmp" and len(c) == 4 and c[1] in ("Eq", "NotEq", "Gt", "GtE", "Lt", "LtE"):
+            for a_, b_, flip_ in ((c[2], c[3], False), (c[3], c[2], True)):
+                if a_[0] == "call" and a_[1] == ("name", "len") and len(a_[2]) == 1 and a_[2][0] in ti_terms and b_[0] == "const" \
+                        and isinstance(b_[2], int) and not isinstance(b_[2], bool):
+                    n_, k_ = (NT[0], b_[2]) if not flip_ else (b_[2], NT[0])
+                    return {"Eq": n_ == k_, "NotEq": n_ != k_, "Gt": n_ > k_, "GtE": n_ >= k_, "Lt": n_ < k_, "LtE": n_ <= k_}[c[1]]
         if c[0] == "un" and c[1] == "Not":
             r = ktruth(c[2], K, depth + 1)
             return None if r is None else not r
@@ -709,7 +768,8 @@ def _table(ctx) -> None:
             names = [x[1] for x in items if x[0] == "name"]
             if any(n in mine for n in names):
                 return True
-            known = {"Vector", "list", "tuple", "Iterator", "Iterable", "Sequence", "str", "bytes", "bytearray", "int", "range", "dict", "Mapping"}
+            known = {"Vector", "list", "tuple", "Iterator", "Iterable", "Sequence", "str", "bytes", "bytearray", "int", "range", "dict", "Mapping",
+                     "float", "complex", "bool", "Sized", "Collection", "set", "frozenset"}
             if kv != "snap" and kv != ("raw", "Vector"):
                 known |= {"Table", "Row"}
             if len(names) == len(items) and all(n in known for n in names):
@@ -745,13 +805,41 @@ def _table(ctx) -> None:
                        + (cfgf.fmt_path(wit) if wit else ""))
     # value forms: a same-length sequence that is not a list - a VECTOR (the natural way to replace a column's cells), a deque, an
     # array - reaches the column's own assignment too: some store of the whole value is feasible for a value of that kind
-    def feasible(m, K):
-        return all(ktruth(c, K) is not (not pol) for c, pol in flatten_conds(m.conds))
-    refused_kinds = [K for K in ("Vector", "deque") if not any(is_value(m.value) and feasible(m, K) for m in cell_stores)]
+    def feasible(m, K, ntargets=None):
+        NT[0] = ntargets
+        try:
+            return all(ktruth(c, K) is not (not pol) for c, pol in flatten_conds(m.conds))
+        finally:
+            NT[0] = None
+    refused_kinds = [K for K in ("Vector", "deque") if not any(is_value(m.value) and feasible(m, K, 1) for m in cell_stores)]
     ctx.ob("f.table-delegation", f, "vector-value", not refused_kinds, "one target column accepts a vector, and any other sequence, of values", f.node,
            message=f"Table.__setitem__ hands a value to a single target column only when it is a list or tuple (or one of a few listed "
                    f"types): a {' / '.join(refused_kinds)} of values - `t[:, 'a'] = Vector([...])`, `t[:, 'a'] = deque([...])` - is refused as "
                    f"an unsupported value type although the column's own assignment accepts it")
+    # a mapping is refused in every form (iterating it yields its KEYS: t[0] = {'b': 'B', 'a': 'A'} made the row ('b', 'a')); a number
+    # is one cell even where its class is iterable (a composite IntFlag member must not be unrolled into a row); and with several
+    # target columns any sequence of columns - a deque, dict.values() - is written column by column like a list of them
+    map_stores = [m for m in cell_stores if feasible(m, "Mapping")]
+    ctx.ob("f.table-delegation", f, "mapping-refused", not map_stores, "no cell store is reachable for a mapping value",
+           (map_stores[0].node if map_stores else f.node),
+           message=f"Table.__setitem__: a cell store (line {getattr(map_stores[0].node, 'lineno', 0) if map_stores else 0}) is reachable for a "
+                   f"mapping value: t[0] = {{'b': 'B', 'a': 'A'}} writes the KEYS into the row, while the same value on a slice or a "
+                   f"column is refused")
+    unrolled = [m for m in cell_stores if feasible(m, "IntFlag") and not is_value(m.value)]
+    whole = [m for m in cell_stores if feasible(m, "IntFlag") and is_value(m.value)]
+    ctx.ob("f.table-delegation", f, "number-is-one-cell", bool(whole) and not unrolled,
+           "a number whose class is iterable (a composite IntFlag member) is stored as one cell", (unrolled[0].node if unrolled else f.node),
+           message="Table.__setitem__ tells a scalar from a row of values by isinstance(value, Iterable) alone: an int whose class is iterable "
+                   "(enum.IntFlag since Python 3.11) is unrolled into a row - t[0, 'f'] = t[0, 'f'] raises 'Row assignment length mismatch' "
+                   "for an <int> column holding Perm.R | Perm.W")
+    ROWP = lambda c: c[0] == "call" and c[1] == ("name", "isinstance") and len(c[2]) == 2 and c[2][1] == ("name", "int") and c[2][0] != VALUE
+    deque_multi = [m for m in cell_stores if m.loops and feasible(m, "deque", 2)
+                   and not any(pol and ROWP(c) for c, pol in flatten_conds(m.conds))]       # (not the single-row form, which takes any iterable)
+    ctx.ob("f.table-delegation", f, "sequence-of-columns", bool(deque_multi),
+           "several target columns accept any sequence of columns (a deque, dict.values()), not only list / tuple / generator", f.node,
+           message="Table.__setitem__: with several target columns no column-by-column store is reachable for a sequence that is not a list "
+                   "or tuple: t[:, ['a', 'b']] = deque([col_a, col_b]) is refused as an unsupported value type while the same columns as a "
+                   "list, tuple or generator are accepted")
     shared = []
     for m in cell_stores:
         if not m.loops:
@@ -793,6 +881,14 @@ def _table(ctx) -> None:
 
 _V, _T = "vector", "table"
 MUTANTS = [
+    dict(id="row-from-a-mapping", module="table", old="		if isinstance(value, Mapping):\n			raise SerifTypeError(f\"Unsupported assignment value type: {type(value)}\")\n\n", new="",
+         rules=["f.table-delegation"], desc="reverts fix d53abfc"),
+    dict(id="intflag-cell-unrolled", module="table", old="isinstance(value, (str, bytes, bytearray, int, float, complex)):\n			for col_idx in target_indices:",
+         new="isinstance(value, (str, bytes, bytearray)):\n			for col_idx in target_indices:", rules=["f.table-delegation"], desc="reverts fix 02e6bcc"),
+    dict(id="deque-of-columns-refused", module="table", old="		elif len(target_indices) > 1 and isinstance(value, Iterable) \\\n", new="		elif False and isinstance(value, Iterable) \\\n",
+         rules=["f.table-delegation"], desc="reverts fix e579789"),
+    dict(id="iterator-value-has-no-len", module="vector", old="		if isinstance(value, Iterator):\n			value = list(value)\n\n		# Is the incoming value iterable?",
+         new="		# Is the incoming value iterable?", rules=["c.key-forms"], desc="reverts fix 0571bca"),
     dict(id="invalid-target-item-skipped", module="table",
          old="				else:\n					# (not skipped: the assignment would silently succeed on the other columns)\n					raise SerifTypeError(f\"Invalid column index type: {type(c)}\")\n",
          new="", rules=["f.table-delegation"], desc="reverts fix a545ea3"),
@@ -800,8 +896,8 @@ MUTANTS = [
          old="		if (isinstance(key, list) or (isinstance(key, Vector) and key.schema() is None)) and len(key) == 0:",
          new="		if isinstance(key, Vector) and key.schema() is None and len(key) == 0:", rules=["c.key-forms"], desc="reverts fix a2b9f72 (setitem)"),
     dict(id="iterator-value-not-snapshotted", module="table",
-         old="		if isinstance(value, Iterator):\n			value = list(value)\n		if isinstance(value, Vector):\n			value = value.copy()\n		elif isinstance(value, (list, tuple)):\n			value = [v.copy() if isinstance(v, Vector) else v for v in value]\n",
-         new="		if isinstance(value, Vector):\n			value = value.copy()\n		elif isinstance(value, (list, tuple)):\n			value = [v.copy() if isinstance(v, Vector) else v for v in value]\n		elif isinstance(value, Iterator):\n			value = list(value)\n",
+         old="		if isinstance(value, Iterator):\n			value = list(value)\n		elif len(target_indices) > 1 and isinstance(value, Iterable) \\\n				and not isinstance(value, (Vector, list, tuple, str, bytes, bytearray, Mapping, int, float, complex)):\n			# (several target columns: any other sequence - a deque, dict.values() - is the list of\n			# its items, one per column, like a list, a tuple or a generator of them)\n			value = list(value)\n		if isinstance(value, Vector):\n			value = value.copy()\n		elif isinstance(value, (list, tuple)):\n			value = [v.copy() if isinstance(v, Vector) else v for v in value]\n",
+         new="		if isinstance(value, Vector):\n			value = value.copy()\n		elif isinstance(value, (list, tuple)):\n			value = [v.copy() if isinstance(v, Vector) else v for v in value]\n		if isinstance(value, Iterator):\n			value = list(value)\n		elif len(target_indices) > 1 and isinstance(value, Iterable) \\\n				and not isinstance(value, (Vector, list, tuple, str, bytes, bytearray, Mapping, int, float, complex)):\n			# (several target columns: any other sequence - a deque, dict.values() - is the list of\n			# its items, one per column, like a list, a tuple or a generator of them)\n			value = list(value)\n",
          rules=["f.table-delegation"], desc="reverts fix 79c529c"),
     dict(id="setitem-no-untyped-empty-key", module="vector",
          old="		if (isinstance(key, list) or (isinstance(key, Vector) and key.schema() is None)) and len(key) == 0:\n			key = ()\n",
